@@ -1,0 +1,22 @@
+//go:build !verif
+
+// Package verifhook provides observation points for external runtime
+// monitors.  Without the "verif" build tag every function is an empty,
+// inlinable stub.
+package verifhook
+
+const (
+	EvBegin = iota
+	EvWant
+	EvGot
+	EvFresh
+	EvRelease
+	EvPreCommit
+	EvCommitted
+	EvCommitFailed
+	EvPostCommit
+	EvAbort
+	EvShrinkIter
+)
+
+func Emit(ev int, txn interface{}, inum uint64) {}
